@@ -28,11 +28,13 @@ var zzErrN = errors.New("zz notify harness")
 
 type zzNSuite struct{}
 
-func (s *zzNSuite) String() string                               { return "zzN" }
-func (s *zzNSuite) ID() CipherSuiteID                            { return TLS_PSK_WITH_AES_128_GCM_SHA256 }
-func (s *zzNSuite) CertificateType() clientcertificate.Type      { return clientcertificate.Type(0) }
-func (s *zzNSuite) HashFunc() func() hash.Hash                   { return nil }
-func (s *zzNSuite) AuthenticationType() types.AuthenticationType { return types.AuthenticationTypePreSharedKey }
+func (s *zzNSuite) String() string                          { return "zzN" }
+func (s *zzNSuite) ID() CipherSuiteID                       { return TLS_PSK_WITH_AES_128_GCM_SHA256 }
+func (s *zzNSuite) CertificateType() clientcertificate.Type { return clientcertificate.Type(0) }
+func (s *zzNSuite) HashFunc() func() hash.Hash              { return nil }
+func (s *zzNSuite) AuthenticationType() types.AuthenticationType {
+	return types.AuthenticationTypePreSharedKey
+}
 func (s *zzNSuite) KeyExchangeAlgorithm() types.KeyExchangeAlgorithm {
 	return types.KeyExchangeAlgorithmPsk
 }
